@@ -548,7 +548,7 @@ def r3(ctx, chk):
                        "the calendar parser replaces the caller's %s: numeric Jalali/Hijri dates written in the order the settings say "
                        "(year-first under the default) are read in another order" % over,
                        key={"function": fn.key, "construct": "settings override " + over}, file=fn.file, function=fn.qual, line=n_.lineno,
-                       text=" ".join(ast.unparse(n_).split())[:100])
+                       text=" ".join(ast.unparse(n_).split())[:100], positive=True)
     chk.ob("C15.R3", "no function of dateparser/calendars overrides a setting of the caller", n_set == 0, "",
            key={"construct": "no settings override in calendars"}, file="dateparser/calendars/__init__.py", function="-", line=None)
     # parse applies to_latin first and then the generic parser
